@@ -1459,3 +1459,79 @@ Section QuatMetric.
         assert (Hz : c = 0) by lra. rewrite Hz, acos_0. field.
   Qed.
 End QuatMetric.
+
+(* =================================================================================================
+   J. label table; what is on disk
+   ================================================================================================= *)
+Lemma col_prefix_no_blank : forall c, no_blank (col_prefix c) /\ (length (col_prefix c) <= 11)%nat.
+Proof. intros c. destruct c; cbn [col_prefix length]; split; try lia; unfold no_blank; repeat (constructor; try discriminate). Qed.
+
+(* a name that fits: the label is the column's prefix followed by the object's name *)
+Lemma col_label_short : forall vname bname c,
+  let name := match col_object c with inl v => vname v | inr b => bname b end in
+  no_blank name -> (length (col_prefix c) + length name <= 21)%nat ->
+  col_label vname bname c = col_prefix c ++ name.
+Proof.
+  intros vname bname c name Hn Hl. unfold col_label. fold name.
+  apply label_token_short; [apply col_prefix_no_blank|exact Hn|exact Hl].
+Qed.
+
+Section DiskBuffer.
+  Context {L : Type}.
+
+  Lemma buf_run_invariant : forall (evs : list (bevent L)) disk buf,
+    let '(d, b) := buf_run disk buf evs in d ++ b = disk ++ buf ++ blines evs.
+  Proof.
+    induction evs as [|e evs IH]; intros disk buf.
+    - cbn [buf_run blines flat_map]. rewrite app_nil_r. reflexivity.
+    - destruct e as [l| |n]; cbn [buf_run].
+      + specialize (IH disk (buf ++ [l])). destruct (buf_run disk (buf ++ [l]) evs) as [d b]. rewrite IH.
+        unfold blines. cbn [flat_map]. rewrite <- !app_assoc. reflexivity.
+      + specialize (IH (disk ++ buf) []). destruct (buf_run (disk ++ buf) [] evs) as [d b]. rewrite IH.
+        unfold blines. cbn [flat_map app]. rewrite <- app_assoc. reflexivity.
+      + specialize (IH (disk ++ firstn n buf) (skipn n buf)). destruct (buf_run (disk ++ firstn n buf) (skipn n buf) evs) as [d b].
+        rewrite IH. unfold blines. cbn [flat_map app]. rewrite <- !app_assoc, (app_assoc (firstn n buf)), firstn_skipn. reflexivity.
+  Qed.
+
+  (* the disk only grows *)
+  Lemma buf_run_disk_grows : forall (evs : list (bevent L)) disk buf,
+    exists more, fst (buf_run disk buf evs) = disk ++ more.
+  Proof.
+    induction evs as [|e evs IH]; intros disk buf; cbn [buf_run].
+    - exists []. cbn [fst]. rewrite app_nil_r. reflexivity.
+    - destruct e as [l| |n].
+      + apply IH.
+      + destruct (IH (disk ++ buf) []) as [m Hm]. exists (buf ++ m). rewrite Hm, app_assoc. reflexivity.
+      + destruct (IH (disk ++ firstn n buf) (skipn n buf)) as [m Hm]. exists (firstn n buf ++ m). rewrite Hm, app_assoc. reflexivity.
+  Qed.
+
+  (* crash after the events e1, a synchronisation, and then e2 (whatever e2 contains): the disk holds every line written
+     before the synchronisation, followed by a prefix of the later lines; nothing else and nothing out of order *)
+  Lemma disk_after_crash : forall (e1 e2 : list (bevent L)),
+    exists kept lost, fst (buf_run [] [] (e1 ++ BSync :: e2)) = blines e1 ++ kept /\ blines e2 = kept ++ lost.
+  Proof.
+    intros e1 e2.
+    assert (H1 : forall disk buf, buf_run disk buf (e1 ++ BSync :: e2) =
+                                  let '(d, b) := buf_run disk buf e1 in buf_run (d ++ b) [] e2).
+    { induction e1 as [|e e1 IH]; intros disk buf; [reflexivity|]. destruct e; cbn [app buf_run]; apply IH. }
+    rewrite H1. pose proof (buf_run_invariant e1 [] []) as Hi. destruct (buf_run [] [] e1) as [d b]. cbn [app] in Hi. rewrite Hi.
+    pose proof (buf_run_invariant e2 (blines e1) []) as Hj.
+    destruct (buf_run_disk_grows e2 (blines e1) []) as [kept Hk].
+    destruct (buf_run (blines e1) [] e2) as [d2 b2]. cbn [fst] in Hk. cbn [app] in Hj. subst d2.
+    exists kept, b2. split; [reflexivity|]. rewrite <- app_assoc in Hj. apply app_inv_head in Hj. symmetry. exact Hj.
+  Qed.
+End DiskBuffer.
+
+(* the lines of the trajectory model are exactly the lines that go through the stream *)
+Lemma traj_bevents_lines : forall rfreq its s,
+  blines (traj_bevents rfreq s its) = snd (traj_run s (map TCalc its)).
+Proof.
+  intros rfreq its. induction its as [|it its IH]; intros s; [reflexivity|].
+  cbn [traj_bevents map traj_run traj_event]. unfold traj_calc_bevents.
+  destruct (traj_calc s it) as [s1 ls] eqn:E. specialize (IH s1).
+  destruct (traj_run s1 (map TCalc its)) as [s2 l2]. cbn [snd] in *.
+  unfold blines in *. rewrite !flat_map_app, IH. f_equal.
+  rewrite <- (app_nil_r ls) at 2. f_equal.
+  - clear E. induction ls as [|l ls IHl]; [reflexivity|]. cbn [map flat_map app]. f_equal. exact IHl.
+  - destruct (negb (rfreq =? 0)%Z && (it mod rfreq =? 0)%Z); reflexivity.
+Qed.
